@@ -136,7 +136,7 @@ func VerifC11_WrongTypes() {
 // VerifC11_Cycles: include and layout graphs with every cycle shape return an
 // error instead of exhausting the stack, and slots that refer to themselves end.
 func VerifC11_Cycles() {
-	shape := zzChoice("shape", 10)
+	shape := zzChoice("shape", 14)
 	files := map[string]string{}
 	page := "a.vuego"
 	wantErr := true
@@ -178,6 +178,19 @@ func VerifC11_Cycles() {
 	case 9: // cycle through a named, scoped slot inside a loop
 		files["a.vuego"] = `<template include="list.vuego"><template #row="r"><template include="a.vuego"></template></template></template>`
 		files["list.vuego"] = `<ul><li v-for="i in xs"><slot name="row" :i="i"></slot></li></ul>`
+	case 10: // a file whose root element is the include of itself
+		files["a.vuego"] = `<template include="a.vuego"></template>`
+	case 11: // 2-cycle of root-level includes
+		files["a.vuego"] = `<template include="b.vuego"></template>`
+		files["b.vuego"] = `<template include="a.vuego"></template>`
+	case 12: // a layout that uses a slot inherited from the page twice
+		files["a.vuego"] = "---\nlayout: two\n---\n<template #x><b>X</b></template><p>body</p>"
+		files["layouts/two.vuego"] = `<div><slot name="x"></slot><slot name="x"></slot></div><main v-html="content"></main>`
+		wantErr = false
+	case 13: // supplied slot content that contains the same slot, at top level
+		files["a.vuego"] = `<template include="card.vuego"><template #title><slot name="title">Untitled</slot></template></template>`
+		files["card.vuego"] = `<section><slot name="title">FB</slot></section>`
+		wantErr = false
 	case 6: // deep but finite nesting
 		files["a.vuego"] = `<div><template include="b.vuego"></template></div>`
 		files["b.vuego"] = `<p><template include="c.vuego"></template></p>`
@@ -221,8 +234,10 @@ func VerifC11_CallFunc() {
 		"fctx": func(ctx *VueContext, s string) string { return s },
 		"f0":   func() string { return "z" },
 		"f2":   func(a, b int) (int, error) { return a + b, nil },
+		"fcv":  func(ctx *VueContext, label string, nums ...int) int { return len(nums) },
+		"fca":  func(ctx *VueContext, vals ...any) int { return len(vals) },
 	}
-	names := []string{"fi", "fu8", "ff", "fs", "fb", "fany", "fsl", "fvar", "fctx", "f0", "f2"}
+	names := []string{"fi", "fu8", "ff", "fs", "fb", "fany", "fsl", "fvar", "fctx", "f0", "f2", "fcv", "fca"}
 	fn := names[zzChoice("fn", len(names))]
 	var v any
 	switch zzChoice("arg", 9) {
